@@ -874,6 +874,23 @@ func (c *streamCtx) dirRare() []genCase {
 		b.done()
 		out = append(out, single(s, "rare: fleet mode "+v))
 	}
+	// the instance status call fails at every poll: the readiness wait still ends at its deadline (clean-up, an ordinary error)
+	{
+		s := newSpec(base, 0)
+		b := s.group("g1")
+		b.template = "lt-g1"
+		b.node(0, 7200)
+		b.node(1, 7300)
+		b.aws.FleetInstances = [][]string{{"i-fa", "i-fb"}}
+		b.aws.ReadyAt = 0
+		for k := 1; k <= 120; k++ {
+			b.aws.StatusFail = append(b.aws.StatusFail, k)
+		}
+		b.aws.ErrCode = "RequestLimitExceeded"
+		b.util(120, 0, true, false)
+		b.done()
+		out = append(out, single(s, "rare: fleet mode, DescribeInstanceStatus fails at every poll"))
+	}
 	// the provider refresh fails at the start of the scan: RunOnce sleeps 5 s and rebuilds the provider (which describes the
 	// groups again), up to twice; a failing rebuild ends RunOnce with that error.  T = the describe succeeds.
 	seqs := [][]bool{{false}, {false, false}}
